@@ -960,7 +960,7 @@ func chains(x *mon.Ctx) {
 	if err := selfTest(); err != nil {
 		x.HarnessError("%v", err)
 	}
-	n := x.Scale(2500, 30000)
+	n := x.Scale(4000, 50000)
 	for i := 0; i < n; i++ {
 		c := x.Begin("topology #%d recipe=%s (generated from the case PRNG; built with SM2 keys, with mixed key types and as ECDSA twin for crypto/x509, created by %s)", i, recipeName(i), []string{"smx509", "crypto/x509"}[i%2])
 		if c == nil {
